@@ -196,11 +196,16 @@ static double ulp_up(double x) { return std::nextafter(x, INFINITY); }
 static double ulp_dn(double x) { return std::nextafter(x, -INFINITY); }
 
 // ---------------------------------------------------------------- legacy Histogram
-struct LCase { long n; int mode; /*0 auto,1 explicit,2 extended*/ bool per, norm; std::string scale; std::vector<double> data; double omin, omax; };
+struct LCase { long n; int mode; /*0 auto,1 explicit,2 extended*/ bool per, norm; std::string scale; std::vector<double> data; double omin, omax;
+               std::vector<double> data0; /* non-empty: the object has processed this data set before (object reuse) */ };
 static std::string lstr(const LCase &c) {
   std::string s = "leg;n=" + std::to_string(c.n) + ";mode=" + std::to_string(c.mode) + ";per=" + (c.per ? "1" : "0") +
                   ";norm=" + (c.norm ? "1" : "0") + ";scale=" + c.scale + ";omin=" + hexd(c.omin) + ";omax=" + hexd(c.omax) + ";data=";
   for (size_t i = 0; i < c.data.size(); i++) s += (i ? "," : "") + hexd(c.data[i]);
+  if (!c.data0.empty()) {
+    s += ";data0=";
+    for (size_t i = 0; i < c.data0.size(); i++) s += (i ? "," : "") + hexd(c.data0[i]);
+  }
   return s;
 }
 static bsx::Outcome run_legacy(const LCase &c) {
@@ -223,7 +228,32 @@ static bsx::Outcome run_legacy(const LCase &c) {
     DataCollection<double>::selection sel;
     sel.push_back(arr);
     Histogram h(op);
-    h.ProcessData(&sel);
+    if (!c.data0.empty()) {
+      // object reuse: the same Histogram has processed another data set before; it must end up exactly like a fresh one
+      DataCollection<double> dc0;
+      auto *arr0 = dc0.CreateArray("a");
+      for (double d : c.data0) arr0->push_back(d);
+      DataCollection<double>::selection sel0;
+      sel0.push_back(arr0);
+      h.ProcessData(&sel0);
+      h.ProcessData(&sel);
+      Histogram f(op);
+      f.ProcessData(&sel);
+      bool same = h.getMin() == f.getMin() && h.getMax() == f.getMax() && h.getInterval() == f.getInterval() && h.getPdf().size() == f.getPdf().size();
+      for (size_t k = 0; same && k < f.getPdf().size(); k++) {
+        double x = h.getPdf()[k], y = f.getPdf()[k];
+        if (!(x == y || (std::isnan(x) && std::isnan(y)))) same = false;
+      }
+      if (!same) {
+        std::string a1, a2;
+        for (double p : h.getPdf()) a1 += bsx::fmt(p) + " ";
+        for (double p : f.getPdf()) a2 += bsx::fmt(p) + " ";
+        return failwith("legacy-reused-object-differs-from-fresh", "second ProcessData on the same object gives [" + bsx::fmt(h.getMin()) + "," + bsx::fmt(h.getMax()) + "] pdf " + a1 +
+                                                                    "; a fresh object gives [" + bsx::fmt(f.getMin()) + "," + bsx::fmt(f.getMax()) + "] pdf " + a2);
+      }
+    } else {
+      h.ProcessData(&sel);
+    }
     double dmin = *std::min_element(c.data.begin(), c.data.end());
     double dmax = *std::max_element(c.data.begin(), c.data.end());
     double emin, emax;
@@ -278,6 +308,7 @@ static bsx::Outcome run_case(const std::string &cas) {
   c.n = atol(m["n"].c_str()); c.mode = atoi(m["mode"].c_str()); c.per = m["per"] == "1"; c.norm = m["norm"] == "1";
   c.scale = m["scale"]; c.omin = unhex(m["omin"]); c.omax = unhex(m["omax"]);
   for (auto &t : bsx::split(m["data"], ',')) c.data.push_back(unhex(t));
+  if (m.count("data0")) for (auto &t : bsx::split(m["data0"], ',')) c.data0.push_back(unhex(t));
   return run_legacy(c);
 }
 
@@ -298,7 +329,8 @@ int main(int argc, char **argv) {
            "config: depth-1 over the full value alphabet (bin centres, edges exact/+-1ulp/+-1e-6 step, min-k*range, max+k*range, "
            "+-1e19 step, +-1e300, +-DBL_MAX) x weights {1,0.5,-2}; depth<=" + std::to_string(depth) +
            " over a reduced alphabet; state = canonical bin vector; every transition compared with a reference model; "
-           "legacy Histogram: all data sets of 2..3 values over {-3,-1,0,1e-11,2} x n x interval mode x periodic x scale x normalise. "
+           "legacy Histogram: all data sets of 2..3 values over {-3,-1,0,1e-11,2} x n x interval mode x periodic x scale x normalise, each on a fresh object and "
+           "on an object that processed another data set before (reused object == fresh object, bit for bit). "
            "distinct_nontrivial = distinct reached canonical states (HistogramNew) + distinct resulting pdfs (legacy)";
   std::vector<Cfg> cfgs;
   for (int per = 0; per < 2; per++)
@@ -413,13 +445,24 @@ int main(int argc, char **argv) {
         LCase c; c.n = n; c.mode = mode; c.per = per; c.norm = norm; c.scale = sc; c.data = ds; c.omin = -1.5; c.omax = 1.5;
         L.push_back(c);
       }
+    // object reuse: the same object processed one of a few first data sets (wider / narrower / disjoint range, different size) before
+    {
+      std::vector<std::vector<double>> firsts = {{-3, 2}, {0, 1e-11, 2, 2, 2}};
+      if (thorough) firsts.insert(firsts.end(), {{-1, -1, 0}, {-7, -7.5, -9, -8}, {-100, 100, 0.5}});
+      size_t base = L.size();
+      for (auto &f0 : firsts)
+        for (size_t i = 0; i < base; i++) {
+          if (!thorough && L[i].data.size() == 3 && L[i].n == 5 && L[i].mode == 1) continue;   // keep quick short
+          LCase c = L[i]; c.data0 = f0; L.push_back(c);
+        }
+    }
     std::vector<long long> mineidx;
     for (long long i = 0; i < (long long)L.size(); i++) if (a.mine(i)) mineidx.push_back(i);
     bsx::contained(
         0, (long long)mineidx.size(), [&](long long i) { return run_legacy(L[mineidx[i]]); },
         [&](long long i, const bsx::Outcome &o) {
-          R.eval(); R.counters["legacy_cases"]++;
           const LCase &c = L[mineidx[i]];
+          R.eval(); R.counters[c.data0.empty() ? "legacy_cases" : "legacy_reuse_cases"]++;
           if (!o.ok) {
             std::string key = o.key == "fatal" ? std::string("legacy-out-of-bounds-scale-") + c.scale : o.key;
             R.fail(key, o.what + (o.key == "fatal" ? "  [" + lstr(c) + "]" : ""), lstr(c));
